@@ -51,6 +51,7 @@ def check(ctx):
     from .c14 import seed_guard            # unused-text flags handed down to the tracts survive a re-parse
     ctx.attempt(seed_guard)
     ctx.attempt(_pm_needs_pm)
+    ctx.attempt(_sec_inside_words)
     ctx.attempt(rebuild_keeps_everything)
     ctx.attempt(dispatch_exhaustive)
     ctx.attempt(common.match_record_roles)
@@ -413,6 +414,28 @@ def _thresholds_and_tests(ctx):
                   f"(characters of the description are lost)", key="SINK|cleanup_desc|test-act", where=common.loc(cd, node))
     if n == 0:
         ctx.undecided('SINK', 'cleanup_desc cuts the text it has just tested', 'endswith / slice pair not recognised')
+
+
+def _sec_inside_words(ctx):
+    """The section patterns start with the word 'Section' / 'Sect' / 'Sec' (or a
+    misspelling).  With no boundary in front, the tail of an ordinary word
+    followed by a number ('bisect 14 acres', 'intersect 9') is read as a
+    section reference: a bogus tract is created and the block in front is cut
+    in the middle of the word, with no flag."""
+    hits = {}
+    for name in ('sec_regex', 'multisec_regex'):
+        rv = ctx.fold.get('rgxlib.sec', name)
+        L = common.lang(ctx, rv)
+        for w in ('bisect 14 acres', 'intersect 9 times', 'transect 3'):
+            sp = [s_ for s_ in L.search_spans(w) if s_[1] > s_[0] and s_[0] > 0 and w[s_[0] - 1].isalpha()]
+            if sp:
+                hits.setdefault(name, []).append((w, w[sp[-1][0]:sp[-1][1]]))
+    for name in ('sec_regex', 'multisec_regex'):
+        h = hits.get(name)
+        ctx.check(not h, 'RX-LANG-NEG', f"{name} does not start inside an ordinary word",
+                  detail_bad=f"{name} matches {h[0][1]!r} inside {h[0][0]!r}: the tail of the word and the number after it become a "
+                             f"section reference (a bogus tract), and the description in front is cut inside the word" if h else '',
+                  key=f"RX-LANG-NEG|{name}|inside-word", where='pytrs/parser/rgxlib/sec.py')
 
 
 def _pm_needs_pm(ctx):
